@@ -6,6 +6,7 @@ import StepModel.GenDeterm
         shape ∈ lit (text = decimal value) | neglit (text = decimal value of the literal under the minus) | inf | funcall | ident | op | runtime (text = attribute name)
         AMBIENT: under the current rule the line depends on an address (no prediction possible)
   order <key> <key> …                               -> O <keys in DICTdo order>
+  section <name> …                                  -> A <names in the order exppp prints one section (types, entities, …) of a scope>
   refout <key>:<supplier>:<hex text> …              -> G <supplier>: item, item | <supplier>: …   (exppp's USE/REFERENCE groups)
 -/
 open StepModel.GenDeterm StepModel.Generated.GenBound StepModel
@@ -59,6 +60,8 @@ def handle (line : String) : String :=
     | some es => "G " ++ " | ".intercalate ((refoutGroups Generated.RefOut.refoutKey amb0 0 es).map fun g =>
                    g.1 ++ ": " ++ ", ".intercalate g.2)
     | none => "bad-op"
+  | "section" :: names =>
+    "A " ++ " ".intercalate (sectionOrder Generated.RefOut.alphabetizeDefault amb0 0 names)
   | "order" :: keys => "O " ++ " ".intercalate ((ExpressHash.dictOrder (keys.map fun k => (k, ()))).map (·.1))
   | [] => ""
   | _ => "bad-op"
